@@ -263,19 +263,23 @@ endstruc
         lea     tmp3, [n - 1]
         shl     tmp3, 4
         add     tmp, tmp3
-        vmovdqu xmm1, [tmp] ;; load last block
 
         ;; get mask for padding
 %ifndef LINUX
         mov     tmp3, rcx       ; save rcx
 %endif
         mov     rcx, r
-        mov     tmp, 0xffff
-        shl     tmp, cl
+        mov     tmp5, 0xffff
+        shl     tmp5, cl
 %ifndef LINUX
         mov     rcx, tmp3       ; restore rcx
 %endif
-        kmovq   k1, tmp
+        ;; load only the r valid bytes of the last (partial) block
+        not     tmp5
+        kmovq   k1, tmp5
+        vmovdqu8 xmm1{k1}{z}, [tmp]
+        not     tmp5
+        kmovq   k1, tmp5
 
         lea     tmp, [rel padding_0x80_tab16 + 16]
         sub     tmp, r
